@@ -482,3 +482,13 @@ Qed.
 
 Lemma fit_nil n : fit n [] = zeros n.
 Proof. unfold fit. cbn [app]. rewrite <- (length_zeros n) at 1. apply firstn_all. Qed.
+
+Lemma get16_read be f o n off :
+  off + 2 <= n -> get16 be (read_of f o n) off = get be (read_of f (o + off) 2).
+Proof. intro H. unfold get16. now rewrite sub_read_of. Qed.
+
+Lemma get_single be x : get be [x] = x.
+Proof. unfold get, be_get. destruct be; cbn; lia. Qed.
+
+Lemma fit_exact n b : len b = n -> fit n b = b.
+Proof. intro H. rewrite fit_small by lia. rewrite H, N.sub_diag. apply app_nil_r. Qed.
